@@ -372,6 +372,58 @@ def trace_selftest(ctx):
     ctx.extra["trace_selftest"] = "corrupted record / claim rejected by the Trace spec: %s" % (got,)
 
 
+CIRC_OPS = [("circ_gate", 10), ("circ_sample", 3), ("circ_local_expectation", 4), ("circ_fidelity", 2), ("circ_amplitude", 1),
+            ("circ_to_dense", 1.5), ("circ_copy", 0.5)]
+
+
+def circuit_history(seed, tid, length):
+    """gates on a CircuitMPS / CircuitPermMPS interleaved with its consumers; the record is circ.gate_opts['info']"""
+    rng = np.random.default_rng(seed)
+    kind = "CircuitPermMPS" if rng.random() < 0.3 else "CircuitMPS"
+    N = int(rng.integers(3, 7))
+    s = U.CircSess(rng, tid, kind, N, trunc=bool(rng.random() < 0.25), psi0=bool(rng.random() < 0.3))
+    s.init()
+    perm = kind == "CircuitPermMPS"
+    n = 0
+    while n < length and not s.dead:
+        ev = _pick(rng, CIRC_OPS) if n >= 2 else "circ_gate"
+        if ev == "circ_gate":
+            k = rng.random()
+            if k < 0.3:
+                op = {"ev": ev, "where": [int(rng.integers(N))], "name": str(rng.choice(["raw", "raw", "H", "X", "T"]))}
+            elif k < 0.92 or perm or N < 3:
+                i, j = (int(v) for v in rng.choice(N, 2, replace=False))
+                names = ["raw", "raw", "raw", "CNOT", "CZ"] + ([] if perm else ["SWAP"])
+                op = {"ev": ev, "where": [i, j], "name": str(rng.choice(names))}
+            else:
+                op = {"ev": ev, "where": [int(v) for v in rng.choice(N, 3, replace=False)], "name": "raw"}
+        elif ev == "circ_local_expectation":
+            w = [int(rng.integers(N))] if (rng.random() < 0.5 or perm) else sorted(int(v) for v in rng.choice(N, 2, replace=False))
+            if len(w) == 2 and rng.random() < 0.3:
+                w = w[::-1]
+            op = {"ev": ev, "where": w, "normalized": bool(rng.random() < 0.5)}
+        elif ev == "circ_fidelity":
+            op = {"ev": ev, "error": bool(rng.random() < 0.3)}
+        elif ev == "circ_to_dense":
+            op = {"ev": ev, "via": str(rng.choice(["to_dense", "psi", "get_psi"]))}
+        elif ev == "circ_sample":
+            op = {"ev": ev, "C": int(rng.integers(1, 4))}
+        else:
+            op = {"ev": ev}
+        r = s.do(op)
+        n += 1
+        if r["exc"]:
+            break
+        if not U.rec_sound_py(r):
+            # the circuit owns its record: show what its consumers make of it, then stop
+            if not s.dead:
+                s.do({"ev": "circ_local_expectation", "where": [0], "normalized": False})
+            if not s.dead:
+                s.do({"ev": "circ_fidelity", "error": False})
+            break
+    return s.recs
+
+
 # ----------------------------------------------------------------------------- check
 
 def run(ctx):
@@ -434,9 +486,17 @@ def run(ctx):
     ctx.sample({"exact_history": [(r["ev"], {a: b for a, b in r["args"].items() if a != "z"}, {a: b for a, b in r["q"].items() if a != "z"})
                                   for r in xrecs[:8]]})
     fails += ctx.validate("C08_Trace", "Trace.cfg", xrecs, name="exact", ntraces=ne)
+    # 5. C->S: circuits (CircuitMPS / CircuitPermMPS) threading their own record through gates and consumers
+    nc, lc = (70, 10) if quick else (900, 12)
+    crecs = []
+    for k in range(nc):
+        crecs += circuit_history(ctx.seed * 9000011 + 29 + k, 300000 + k, lc)
+    ctx.sample({"circuit_history": [(r["ev"], {a: b for a, b in r["args"].items() if a != "z"}, r["rec"]) for r in crecs[:10]]})
+    fails += ctx.validate("C08_Trace", "Trace.cfg", crecs, name="circuit", ntraces=nc)
+    ctx.extra["circuit_steps"] = len(crecs)
     ctx.extra["walk_steps"] = len(wrecs)
     ctx.extra["exact_steps"] = len(xrecs)
-    ctx.extra["rejected_calls"] = sorted({"%s:%s" % (r["ev"], r["exc"]) for r in recs + wrecs + xrecs if r["exc"]})[:20]
+    ctx.extra["rejected_calls"] = sorted({"%s:%s" % (r["ev"], r["exc"]) for r in recs + wrecs + xrecs + crecs if r["exc"]})[:20]
 
     notes = [f for f in fails if f["clause"].startswith("NOTE:")]
     seen = {}
@@ -448,7 +508,7 @@ def run(ctx):
     ctx.extra["model_drift_steps"] = len(notes)
     ctx.clauses.update(["Returns", "RecordInRange", "RecordSound", "FlagSound", "Establishes", "Documented", "StateAsExpected",
                         "PostMeasurementState", "MeasurementProbability", "SchmidtValues", "Entropy", "SchmidtGap", "Magnetization",
-                        "ReducedDensity", "LocalExpectation", "SampleProbability", "ExactValue",
+                        "ReducedDensity", "LocalExpectation", "SampleProbability", "ExactValue", "CircuitQuery",
                         "model: RecordSoundInv RecordInRangeInv FlagSoundInv ConsumerSound TypeOK"])
     ctx.assumptions += [
         "assume-guarantee reading: a call is judged only when the record (and the left_inds claims) it was given were sound on the "
@@ -461,7 +521,9 @@ def run(ctx):
         "Schmidt values / entropy / magnetization are compared with the same functional of the dense vector without normalising it "
         "(they coincide with the textbook values on normalised states); entropy is in bits",
         "isometry tolerance 1e-8 (double) / 5e-4 (single); query tolerance 1e-8 / 2e-3 relative",
-        "compress_site(canonize=False), cyclic MPS, bra= arguments, method='lazy' and CircuitMPS (C07) are not exercised",
+        "circuits: the record circ.gate_opts['info'] is judged against the stored state circ._psi after every gate and consumer; "
+        "the gate semantics themselves (named gate matrices, parameters) belong to C07",
+        "compress_site(canonize=False), cyclic MPS, bra= arguments, method='lazy' and CircuitMPSLazy are not exercised",
     ]
     for f in fails:
         f["record"] = {k: v for k, v in f["record"].items() if k != "model"}
